@@ -115,6 +115,25 @@ def oracle(c):
         by_factor.setdefault(t.factor.name, []).append((name, Z, own, ng, rowcell))
     # rank: the columns of one grouping factor are independent and span group x effect-cell means
     if c.get("kind") in ("grid", "same-factor"):
+        # rank statements are about numeric columns in general position: redo the design on the same
+        # frame with the numeric columns replaced by pseudo-random reals
+        import zlib
+        from formulae import design_matrices as _dmx
+        g = np.random.default_rng(zlib.crc32(c["formula"].encode()) + len(df))
+        df = df.copy()
+        for col in ("x", "z", "w"):
+            df[col] = g.normal(size=len(df)) * 3 + g.uniform(-5, 5)
+        try:
+            d = _dmx(c["formula"], df)
+        except Exception:
+            return None
+        by_factor = {}
+        for name, t in d.group.terms.items():
+            Z = np.asarray(d.group[name], dtype=float)
+            vars_ = [D.ATOMS[cp.name][1] for cp in t.factor.components]
+            cells, _ = _cells(df, vars_)
+            rowcell = [cells.index(":".join(str(df[v].iloc[i]) for v in vars_)) for i in range(len(df))]
+            by_factor.setdefault(t.factor.name, []).append((name, Z, None, len(cells), rowcell))
         # group the terms by grouping factor regardless of the order its components are written in
         merged = {}
         for fac, lst in by_factor.items():
